@@ -139,13 +139,17 @@ void h_int64(void)
     __CPROVER_assert(!(r != 0 && K == len - p && len == N), "reach: accepted, digits run to the end of a maximal range");
     __CPROVER_assert(!(r != 0 && p + K < len), "reach: accepted, stopped at a non-digit");
     __CPROVER_assert(!(r == 0 && pre_ok && K >= 1), "reach: rejected because the value does not fit");
+#if SIGN_DOMAIN != 2
     __CPROVER_assert(!(r == 0 && pre_ok && K == 0), "reach: rejected because there is no digit");
     __CPROVER_assert(!(r != 0 && W[K] == TWO63 - 1), "reach: accepted INT64_MAX");
     __CPROVER_assert(!(r != 0 && K >= 21 && W[K] > 1000 && W[K] < 100000), "reach: accepted with many leading zeros");
+#endif
 #if SIGN
     __CPROVER_assert(!(r != 0 && neg && result < 0), "reach: accepted a negative value");
+#if SIGN_DOMAIN != 2
     __CPROVER_assert(!(r == 0 && !pre_ok), "reach: rejected a bare sign");
-#if SIGN_DOMAIN == 2
+    __CPROVER_assert(!(r != 0 && neg && W[K] == TWO63 - 1), "reach: accepted -INT64_MAX");
+#else
     __CPROVER_assert(!(r != 0 && result == (-9223372036854775807L - 1)), "reach: accepted INT64_MIN");
     __CPROVER_assert(!(r == 0 && hits_min), "reach: rejected a value that passed through 2^63");
 #endif
@@ -154,10 +158,162 @@ void h_int64(void)
     __CPROVER_assert(!(r != 0 && p >= 2 && eb == 16), "reach: accepted with a 0x prefix");
 #endif
 #if !defined(BASE) || BASE == 0
-    __CPROVER_assert(!(r != 0 && eb == 8 && W[K] > 7), "reach: accepted auto-detected octal");
+    __CPROVER_assert(!(r != 0 && eb == 8 && base == 0 && W[K] > 7), "reach: accepted auto-detected octal");
     __CPROVER_assert(!(r != 0 && eb == 10 && base == 0), "reach: accepted auto-detected decimal");
 #endif
 #endif
 }
 #endif /* T_INT64 */
+
+/* ============================== httpHeaderParseOffset / httpHeaderParseInt ==============================
+ * The libc functions are ASSUMED (trusted, unit.json): strtoll(nptr, &end, 10) and atoi(nptr) follow C11 7.22.1.4 /
+ * POSIX in the "C" locale: skip isspace() bytes, optional sign, maximal run of decimal digits; the exact value if it
+ * fits, else LLONG_MAX / LLONG_MIN with errno = ERANGE; *end just after the last digit; no digits: returns 0,
+ * *end = nptr, errno possibly EINVAL (POSIX "may"). atoi is glibc's: (int)strtol(nptr, NULL, 10) -- ISO C leaves an
+ * unrepresentable result undefined; the truncation modelled here is what the running binary does.
+ * The models below ARE those assumptions (constant-bound loops over the N-byte input). */
+#if defined(T_OFFSET) || defined(T_PARSEINT)
+extern int cv_errno;
+
+struct numprefix { size_t ws; _Bool neg; size_t signlen; size_t K; unsigned long W; /* min(value, 2^64-1) */ };
+
+static _Bool spec_isspace(char c) { return c == ' ' || (c >= 9 && c <= 13); }
+
+static struct numprefix spec_prefix(const char *s)
+{
+    struct numprefix r = {0, 0, 0, 0, 0};
+    for (size_t i = 0; i < N; i++)
+        if (r.ws == i && spec_isspace(s[i])) r.ws = i + 1;
+    if (s[r.ws] == '-') { r.neg = 1; r.signlen = 1; }
+    else if (s[r.ws] == '+') r.signlen = 1;
+    const size_t d0 = r.ws + r.signlen;
+    for (size_t i = 0; i < N; i++)
+        if (r.K == i && d0 + i < N && s[d0 + i] >= '0' && s[d0 + i] <= '9') {
+            u128 t = (u128)r.W * 10 + (unsigned)(s[d0 + i] - '0');
+            r.W = t > (u128)0xffffffffffffffffUL ? 0xffffffffffffffffUL : (unsigned long)t;
+            r.K = i + 1;
+        }
+    return r;
+}
+
+struct numprefix g_q;
+const char *g_buf;
+_Bool nondet_bool(void);
+long long strtoll(const char *nptr, char **endptr, int base)
+{
+    __CPROVER_assert(base == 10, "strtoll model: only base 10 is modelled");
+    /* the reference decomposition of the input is computed once, by the harness (g_q = spec_prefix(g_buf)); the model
+     * shares it instead of recomputing it (two separate 32-step multiplier chains are a needless SAT equivalence problem) */
+    __CPROVER_assert(nptr == g_buf, "strtoll model: called on the start of the input string");
+    const struct numprefix q = g_q;
+    if (q.K == 0) {
+        if (endptr) *endptr = (char *)nptr;
+        if (nondet_bool()) cv_errno = 22;   /* EINVAL: allowed, not required */
+        return 0;
+    }
+    if (endptr) *endptr = (char *)nptr + q.ws + q.signlen + q.K;
+    if (q.neg) {
+        if (q.W > TWO63) { cv_errno = 34; return (-9223372036854775807LL - 1); }
+        return (long long)(0 - q.W);        /* unsigned negate then convert: exact for W <= 2^63 on this target */
+    }
+    if (q.W > TWO63 - 1) { cv_errno = 34; return 9223372036854775807LL; }
+    return (long long)q.W;
+}
+int atoi(const char *nptr)
+{
+    const int saved = cv_errno;
+    const long long v = strtoll(nptr, (char **)0, 10);
+    cv_errno = saved;                        /* glibc's atoi does not promise anything about errno; keep it neutral */
+    return (int)v;                           /* glibc: truncation */
+}
+void cv_assert_fail(void) { __CPROVER_assert(0, "assert() in the sliced text holds"); }
+
+/* NUL-terminated input of at most N-1 characters in an exactly-sized heap block */
+static char *make_cstring(size_t *lenp)
+{
+    size_t len;
+    __CPROVER_assume(len < N);
+    char *buf = malloc(len + 1);
+    __CPROVER_assume(buf != NULL);
+    buf[len] = 0;
+    *lenp = len;
+    return buf;
+}
+#endif
+
+#if defined(T_OFFSET)
+int cv_parse_offset(const char *start, long *value, char **endPtr);   /* = httpHeaderParseOffset(start, value, endPtr) ? 1 : 0 */
+void h_offset(void)
+{
+    size_t len;
+    char *buf = make_cstring(&len);
+    const struct numprefix q = spec_prefix(buf);
+    g_q = q; g_buf = buf;
+    const unsigned long lim = q.neg ? TWO63 : TWO63 - 1;
+    long value = 0x5a5a5a5a5a5a5a5aL;
+    char *end = (char *)0;
+    _Bool want_end;
+    int r = cv_parse_offset(buf, &value, want_end ? &end : (char **)0);
+    /* property: exact value when it fits in int64, failure otherwise, never a wrapped or saturated value */
+    __CPROVER_assert((r != 0) == (q.K >= 1 && q.W <= lim), "ensures: succeeds iff at least one digit was consumed and the exact value fits int64");
+#ifdef TWIN_EXACT
+    __CPROVER_assert(!(r != 0) || (i128)value != (q.neg ? -(i128)q.W : (i128)q.W), "ensures: TWIN (negated) exact value");
+#else
+    __CPROVER_assert(!(r != 0) || (i128)value == (q.neg ? -(i128)q.W : (i128)q.W), "ensures: *value == sign * exact value of the digits consumed");
+#endif
+    __CPROVER_assert(!(r != 0 && want_end) || end == buf + q.ws + q.signlen + q.K, "ensures: *endPtr is just past the last digit of the value");
+    __CPROVER_assert(!(r != 0 && want_end) || (end > buf && end <= buf + len), "ensures: at least one character consumed, none past the terminator");
+    __CPROVER_assert((r != 0) || (value == 0x5a5a5a5a5a5a5a5aL && end == (char *)0), "ensures: outputs untouched on failure");
+#ifdef REACH
+    __CPROVER_assert(!(r != 0 && q.neg && value < -5), "reach: accepted a negative value");
+    __CPROVER_assert(!(r != 0 && value == 9223372036854775807L), "reach: accepted INT64_MAX");
+    __CPROVER_assert(!(r != 0 && value == (-9223372036854775807L - 1)), "reach: accepted INT64_MIN");
+    __CPROVER_assert(!(r == 0 && q.K >= 1), "reach: rejected a value that does not fit");
+    __CPROVER_assert(!(r == 0 && q.K == 0 && len == 0), "reach: rejected the empty string");
+    __CPROVER_assert(!(r == 0 && q.K == 0 && len > 3), "reach: rejected a string without digits");
+    __CPROVER_assert(!(r != 0 && want_end && *end != 0 && q.ws > 0), "reach: accepted with leading space and trailing bytes");
+#endif
+}
+#endif
+
+#if defined(T_PARSEINT)
+int httpHeaderParseInt(const char *start, int *value);
+void h_parseint(void)
+{
+    size_t len;
+    char *buf = make_cstring(&len);
+    const struct numprefix q = spec_prefix(buf);
+    g_q = q; g_buf = buf;
+    const unsigned long lim = q.neg ? (1UL << 31) : (1UL << 31) - 1;
+    const _Bool fits = q.W <= lim;
+#if INT_DOMAIN == 1
+    __CPROVER_assume(fits);        /* domain split (not a weakening): the complement is target parseint_range */
+#elif INT_DOMAIN == 2
+    __CPROVER_assume(!fits);
+#endif
+    int value;
+    int r = httpHeaderParseInt(buf, &value);
+    /* property: "return the exact value of the digits they consume when it fits ..., and fail otherwise; never wrap" */
+    __CPROVER_assert(!(r != 0) || fits, "ensures: never succeeds on a value that does not fit (no wrapped result)");
+#ifdef TWIN_EXACT
+    __CPROVER_assert(!(r != 0 && fits) || (long)value != (q.neg ? -(long)q.W : (long)q.W), "ensures: TWIN (negated) exact value");
+#else
+    __CPROVER_assert(!(r != 0 && fits) || (long)value == (q.neg ? -(long)q.W : (long)q.W), "ensures: *value == sign * exact value of the digits consumed");
+#endif
+    __CPROVER_assert(!(r != 0) || q.K >= 1, "ensures: success only if at least one digit was consumed");
+    __CPROVER_assert(!(q.K >= 1 && fits && q.ws == 0 && q.signlen == 0) || r != 0, "ensures: a digit-led value that fits is accepted");
+#ifdef REACH
+#if INT_DOMAIN != 2
+    __CPROVER_assert(!(r != 0 && value == 2147483647), "reach: accepted INT_MAX");
+    __CPROVER_assert(!(r != 0 && value == 0), "reach: accepted zero");
+    __CPROVER_assert(!(r != 0 && value < 0), "reach: accepted a negative value");
+    __CPROVER_assert(!(r == 0 && len > 2), "reach: rejected a non-number");
+    __CPROVER_assert(!(r == 0 && len == 0), "reach: rejected the empty string");
+#else
+    __CPROVER_assert(!(r != 0 && value == 1), "reach: out-of-range digits accepted as 1");
+    __CPROVER_assert(!(r != 0 && q.K == 10), "reach: a 10-digit out-of-range value accepted");
+#endif
+#endif
+}
+#endif
 #endif /* CV_NATIVE */
